@@ -1,6 +1,8 @@
 import Tengo.Props.C16
 import Tengo.Props.C16Compile
+import Tengo.Props.C16CompileFn
 /-!
 C16 — all theorems: `Tengo.Props.C16` (frame model of OpCall / OpReturn, shape facts), `Tengo.Props.VM`
-(whole-VM model) and `Tengo.Props.C16Compile` (tail-call layouts emitted by the compiler model).
+(whole-VM model), `Tengo.Props.C16Compile` (tail-call layouts emitted by the compiler model) and
+`Tengo.Props.C16CompileFn` (the same from SOURCE through a whole function literal, liveness included).
 -/
